@@ -47,7 +47,7 @@ type lostLink struct {
 	Kind     string `json:"kind"` // "deal" | "response"
 	FromRank int    `json:"from_rank"`
 	ToRank   int    `json:"to_rank"`
-	Late     bool   `json:"late"` // delivered after the phase instead of never
+	Late     bool   `json:"late"` // (deals only) delivered only after the receiver has left the deal phase, instead of never
 	From     string `json:"from,omitempty"`
 	To       string `json:"to,omitempty"`
 	Hits     int    `json:"transmissions_hit"`
@@ -70,21 +70,23 @@ type doneEv struct {
 }
 
 type bus struct {
-	mu       sync.Mutex
-	rng      *rand.Rand
-	nodes    map[string]*rnode
-	sched    schedule
-	slowAddr string
-	deadAddr string
-	lose     *lostLink
-	loseIdx  uint32                     // index carried by the sender's own bundle
-	lateBy   time.Duration              // how late a 'late' transmission is
-	recorded map[string]*pdkg.DKGPacket // first response bundle sent by each node (for the replay witness)
-	indexOf  map[string]uint32          // DKG index of each node (replay witness)
-	stats    map[string]int
-	wg       sync.WaitGroup
-	closed   bool
-	inflight int
+	mu        sync.Mutex
+	rng       *rand.Rand
+	nodes     map[string]*rnode
+	sched     schedule
+	slowAddr  string
+	deadAddr  string
+	lose      *lostLink
+	loseIdx   uint32                     // index carried by the sender's own bundle
+	loseToIdx uint32                     // share index of the receiver of the scripted faulty link
+	lateGate  chan struct{}              // closed when that receiver has sent its own response bundle (it left the deal phase)
+	lateCap   time.Duration              // upper bound of the wait for the gate
+	recorded  map[string]*pdkg.DKGPacket // first response bundle sent by each node (for the replay witness)
+	indexOf   map[string]uint32          // DKG index of each node (replay witness)
+	stats     map[string]int
+	wg        sync.WaitGroup
+	closed    bool
+	inflight  int
 }
 
 func (b *bus) rand(f func(r *rand.Rand)) {
@@ -176,14 +178,29 @@ func (c *client) BroadcastDKG(ctx context.Context, p net.Peer, in *pdkg.DKGPacke
 		}
 		c.b.mu.Unlock()
 	}
-	if late, lost := c.b.faulty(c.from, p.Address(), in); lost {
+	c.b.observe(c.from, in)
+	if gate, lost := c.b.faulty(c.from, p.Address(), in); lost {
 		return nil, errors.New("transmission lost")
-	} else if late > 0 {
+	} else if gate != nil {
+		// a late transmission: it is handed to the network now and arrives only after the receiver
+		// has left the phase the bundle belongs to (observed on the bus, not timed); the sender
+		// goes on with its other transmissions
+		cp := proto.Clone(in).(*pdkg.DKGPacket)
 		c.b.mu.Lock()
 		c.b.inflight++
+		limit := c.b.lateCap
 		c.b.mu.Unlock()
-		time.Sleep(late)
-		c.b.done()
+		c.b.wg.Add(1)
+		go func() {
+			defer c.b.wg.Done()
+			select {
+			case <-gate:
+			case <-time.After(limit):
+			}
+			c.b.done()
+			_, _ = c.b.deliverDKG(c.from, p, cp)
+		}()
+		return &pdkg.EmptyDKGResponse{}, nil
 	}
 	if c.b.isDead(c.from) || c.b.isDead(p.Address()) {
 		// a crashed node: its bundles never leave and nothing reaches it
@@ -197,32 +214,50 @@ func (c *client) BroadcastDKG(ctx context.Context, p net.Peer, in *pdkg.DKGPacke
 
 // faulty decides whether this transmission is the scripted lost / late one: the sender's OWN
 // bundle (its index is the sender's) on the scripted link; only the first such transmission.
-func (b *bus) faulty(from, to string, in *pdkg.DKGPacket) (time.Duration, bool) {
+func (b *bus) faulty(from, to string, in *pdkg.DKGPacket) (chan struct{}, bool) {
 	b.mu.Lock()
 	defer b.mu.Unlock()
 	l := b.lose
 	if l == nil || l.From != from || l.To != to || l.Hits > 0 {
-		return 0, false
+		return nil, false
 	}
 	switch l.Kind {
 	case "deal":
 		if d := in.GetDkg().GetDeal(); d == nil || d.GetDealerIndex() != b.loseIdx {
-			return 0, false
+			return nil, false
 		}
 	case "response":
 		if r := in.GetDkg().GetResponse(); r == nil || r.GetShareIndex() != b.loseIdx {
-			return 0, false
+			return nil, false
 		}
 	default:
-		return 0, false
+		return nil, false
 	}
 	l.Hits++
 	if l.Late {
 		b.stats["late/"+l.Kind]++
-		return b.lateBy, false
+		return b.lateGate, false
 	}
 	b.stats["lost/"+l.Kind]++
-	return 0, true
+	return nil, true
+}
+
+// observe opens the gate of a late transmission once the receiver of the faulty link sends its
+// own response bundle, i.e. has processed the deals it had.
+func (b *bus) observe(from string, in *pdkg.DKGPacket) {
+	b.mu.Lock()
+	defer b.mu.Unlock()
+	l := b.lose
+	if l == nil || !l.Late || b.lateGate == nil || from != l.To {
+		return
+	}
+	if r := in.GetDkg().GetResponse(); r != nil && r.GetShareIndex() == b.loseToIdx {
+		select {
+		case <-b.lateGate:
+		default:
+			close(b.lateGate)
+		}
+	}
 }
 
 func (b *bus) isDead(addr string) bool {
@@ -313,12 +348,14 @@ type scenario struct {
 	Sched     schedule      `json:"schedule"`
 	Phase     time.Duration `json:"phase"`
 	// resharing
-	Reshare   string   `json:"reshare"` // "" | "same" | "add" | "remove"
-	Thr2      int      `json:"threshold2"`
-	Sched2    schedule `json:"schedule2"`
-	ListPerm2 []int    `json:"list_perm2"`
-	BeaconID  string   `json:"beacon_id"`
-	Witness   string   `json:"witness,omitempty"` // replay of a candidate finding instead of a regular run
+	Reshare     string   `json:"reshare"` // "" | "same" | "add" | "remove"
+	Thr2        int      `json:"threshold2"`
+	Sched2      schedule `json:"schedule2"`
+	ListPerm2   []int    `json:"list_perm2"`
+	BeaconID    string   `json:"beacon_id"`
+	Witness     string   `json:"witness,omitempty"`      // replay of a candidate finding instead of a regular run
+	WitnessOnly bool     `json:"witness_only,omitempty"` // replays a known finding that depends on real time; never reported as not completing
+	Scale       float64  `json:"time_scale"`             // factor applied to every real-time constant (phase already includes it)
 }
 
 // nodeObs is what one node holds after a completed DKG.
@@ -351,11 +388,20 @@ type epochObs struct {
 }
 
 type world struct {
+	scale float64
 	sc    scenario
 	sch   *crypto.Scheme
 	bus   *bus
 	nodes []*rnode
 	dirs  []string
+}
+
+// d scales a real-time constant by the factor measured on this machine at the start of the run.
+func (w *world) d(x time.Duration) time.Duration {
+	if w.scale <= 1 {
+		return x
+	}
+	return time.Duration(float64(x) * w.scale)
 }
 
 func (w *world) addNode(rng *rand.Rand, i int) (*rnode, error) {
@@ -378,7 +424,7 @@ func (w *world) addNode(rng *rand.Rand, i int) (*rnode, error) {
 		return nil, err
 	}
 	out := util.NewFanOutChan[dkg.SharingOutput]()
-	conf := dkg.Config{Timeout: time.Minute, TimeBetweenDKGPhases: w.sc.Phase, KickoffGracePeriod: 800 * time.Millisecond}
+	conf := dkg.Config{Timeout: w.d(time.Minute), TimeBetweenDKGPhases: w.sc.Phase, KickoffGracePeriod: w.d(800 * time.Millisecond)}
 	n := &rnode{addr: addr, kp: kp, part: part, dir: dir, store: st}
 	n.proc = dkg.NewDKGProcess(st, ident{kp}, out, &client{w.bus, addr}, nil, conf, quietLogger().Named(fmt.Sprintf("S%s/%s", w.sc.Name[:2], addr[:2])))
 	n.done = make(chan doneEv, 8)
@@ -513,7 +559,13 @@ func (w *world) armLoss(members []*rnode, dealers []*rnode, dealerIdx map[string
 	}
 	w.bus.lose = &cp
 	w.bus.loseIdx = idx[from.addr]
-	w.bus.lateBy = w.sc.Phase + 600*time.Millisecond
+	for i, n := range recv {
+		if n == to {
+			w.bus.loseToIdx = uint32(i)
+		}
+	}
+	w.bus.lateGate = make(chan struct{})
+	w.bus.lateCap = 5*w.sc.Phase + w.d(5*time.Second)
 }
 
 // lossOf reports the resolved lost transmission of the current epoch (nil if none).
@@ -611,7 +663,7 @@ func runScenario(sc scenario, seed int64) (res []epochObs) {
 	if err != nil {
 		return []epochObs{{Scenario: sc.Name, Epoch: 1, Err: err.Error()}}
 	}
-	w := &world{sc: sc, sch: sch, bus: &bus{rng: rand.New(rand.NewSource(seed + 1)), nodes: map[string]*rnode{}, stats: map[string]int{}}}
+	w := &world{scale: sc.Scale, sc: sc, sch: sch, bus: &bus{rng: rand.New(rand.NewSource(seed + 1)), nodes: map[string]*rnode{}, stats: map[string]int{}}}
 	defer w.close()
 	fail := func(epoch int, err error, obs []nodeObs, exp int, t time.Time) []epochObs {
 		return append(res, epochObs{Scenario: sc.Name, Epoch: epoch, Err: err.Error(), Nodes: obs, Expected: exp, Wall: time.Since(t).Seconds(), Stats: w.bus.snapshot(), Loss: w.lossOf()})
@@ -650,13 +702,13 @@ func runScenario(sc scenario, seed int64) (res []epochObs) {
 	w.armLoss(w.nodes, w.nodes, rank1)
 	genesis := start.Unix() + sc.GenesisIn
 	err = cmd(leader, id, &pdkg.DKGCommand{Command: &pdkg.DKGCommand_Initial{Initial: &pdkg.FirstProposalOptions{
-		Timeout: timestamppb.New(start.Add(50 * time.Second)), Threshold: uint32(sc.Thr), PeriodSeconds: uint32(sc.Period), Scheme: sc.Scheme,
+		Timeout: timestamppb.New(start.Add(w.d(50 * time.Second))), Threshold: uint32(sc.Thr), PeriodSeconds: uint32(sc.Period), Scheme: sc.Scheme,
 		CatchupPeriodSeconds: uint32(sc.Period/2 + 1), GenesisTime: timestamppb.New(time.Unix(genesis, 0)), Joining: permuted(parts, sc.ListPerm)}}})
 	if err != nil && sc.N > 1 {
 		return fail(1, fmt.Errorf("initial proposal: %w", err), nil, sc.N, start)
 	}
 	for _, n := range w.nodes[1:] {
-		if err := w.waitState(n, dkg.Proposed, 1, 10*time.Second); err != nil {
+		if err := w.waitState(n, dkg.Proposed, 1, w.d(10*time.Second)); err != nil {
 			return fail(1, err, nil, sc.N, start)
 		}
 		if err := cmd(n, id, &pdkg.DKGCommand{Command: &pdkg.DKGCommand_Join{Join: &pdkg.JoinOptions{}}}); err != nil {
@@ -676,7 +728,7 @@ func runScenario(sc scenario, seed int64) (res []epochObs) {
 			}
 		}
 	}
-	obs, err := w.collect(alive, 1, t0, 4*sc.Phase+10*time.Second)
+	obs, err := w.collect(alive, 1, t0, 4*sc.Phase+w.d(10*time.Second))
 	if err != nil {
 		return fail(1, err, obs, len(alive), start)
 	}
@@ -685,7 +737,7 @@ func runScenario(sc scenario, seed int64) (res []epochObs) {
 		return res
 	}
 	// ---------------- epoch 2 ----------------
-	if !w.bus.waitQuiet(300*time.Millisecond, 20*time.Second) {
+	if !w.bus.waitQuiet(w.d(300*time.Millisecond), w.d(20*time.Second)) {
 		return fail(2, errors.New("network did not become quiet after the first DKG"), nil, sc.N, time.Now())
 	}
 	start2 := time.Now()
@@ -720,13 +772,13 @@ func runScenario(sc scenario, seed int64) (res []epochObs) {
 		return out
 	}
 	err = cmd(leader, id, &pdkg.DKGCommand{Command: &pdkg.DKGCommand_Resharing{Resharing: &pdkg.ProposalOptions{
-		Timeout: timestamppb.New(start2.Add(50 * time.Second)), Threshold: uint32(sc.Thr2), CatchupPeriodSeconds: uint32(sc.Period/2 + 2),
+		Timeout: timestamppb.New(start2.Add(w.d(50 * time.Second))), Threshold: uint32(sc.Thr2), CatchupPeriodSeconds: uint32(sc.Period/2 + 2),
 		Joining: toParts(joiners), Remaining: permuted(toParts(remaining), sc.ListPerm2), Leaving: toParts(leavers)}}})
 	if err != nil && len(remaining)+len(joiners)+len(leavers) > 1 {
 		return fail(2, fmt.Errorf("reshare proposal: %w", err), nil, len(remaining)+len(joiners), start2)
 	}
 	for _, n := range remaining[1:] {
-		if err := w.waitState(n, dkg.Proposed, 2, 10*time.Second); err != nil {
+		if err := w.waitState(n, dkg.Proposed, 2, w.d(10*time.Second)); err != nil {
 			return fail(2, err, nil, len(remaining)+len(joiners), start2)
 		}
 		if err := cmd(n, id, &pdkg.DKGCommand{Command: &pdkg.DKGCommand_Accept{Accept: &pdkg.AcceptOptions{}}}); err != nil {
@@ -734,7 +786,7 @@ func runScenario(sc scenario, seed int64) (res []epochObs) {
 		}
 	}
 	for _, n := range joiners {
-		if err := w.waitState(n, dkg.Proposed, 2, 10*time.Second); err != nil {
+		if err := w.waitState(n, dkg.Proposed, 2, w.d(10*time.Second)); err != nil {
 			return fail(2, err, nil, len(remaining)+len(joiners), start2)
 		}
 		var gb bytes.Buffer
@@ -746,7 +798,7 @@ func runScenario(sc scenario, seed int64) (res []epochObs) {
 		}
 	}
 	for _, n := range leavers {
-		if err := w.waitState(n, dkg.Proposed, 2, 10*time.Second); err != nil {
+		if err := w.waitState(n, dkg.Proposed, 2, w.d(10*time.Second)); err != nil {
 			return fail(2, err, nil, len(remaining)+len(joiners), start2)
 		}
 	}
@@ -767,14 +819,14 @@ func runScenario(sc scenario, seed int64) (res []epochObs) {
 			return fail(2, errors.New("witness: no response bundle recorded in the first ceremony"), nil, len(remaining), start2)
 		}
 		for _, n := range remaining {
-			if err := w.waitState(n, dkg.Executing, 2, 5*time.Second); err != nil {
+			if err := w.waitState(n, dkg.Executing, 2, w.d(5*time.Second)); err != nil {
 				return fail(2, err, nil, len(remaining), start2)
 			}
 		}
 		_, _ = y.proc.BroadcastDKG(context.Background(), proto.Clone(old).(*pdkg.DKGPacket))
 	}
 	members := append(append([]*rnode{}, remaining...), joiners...)
-	obs2, err := w.collect(members, 2, t0, 4*sc.Phase+15*time.Second)
+	obs2, err := w.collect(members, 2, t0, 4*sc.Phase+w.d(15*time.Second))
 	if err != nil {
 		return fail(2, err, obs2, len(members), start2)
 	}
